@@ -202,8 +202,31 @@ async def run_script(job):
                     task.cancel()
                     await asyncio.sleep(0.02)
                     ev("stop", open=sorted(clients))
+            elif k == "cancelall":
+                # the application shuts down: every task but ours is cancelled (what asyncio.run does on exit)
+                if task is not None:
+                    me = asyncio.current_task()
+                    for t in asyncio.all_tasks():
+                        if t is not me:
+                            t.cancel()
+                    await asyncio.sleep(0.02)
+                    ev("stop", open=sorted(clients))
+            elif k == "restart":
+                # the stopped server object is started once more
+                if task is not None:
+                    done, _ = await asyncio.wait([task], timeout=BOUND)
+                    ev("finished", done=bool(done), secs=0.0, serving=bool(server.is_serving()), sock=os.path.exists(path),
+                       connect=(await can_connect()), tr=transport)
+                    try:
+                        task = await asyncio.wait_for(server.serve_forever(), BOUND)
+                        await asyncio.sleep(0.02)
+                        ev("served", tr=transport, ok=isinstance(task, asyncio.Task) and not task.done(), prompt=True,
+                           serving=bool(server.is_serving()), sock=os.path.exists(path))
+                    except Exception as e:
+                        ev("served", tr=transport, ok=False, prompt=False, serving=False, sock=os.path.exists(path))
         # ---- epilogue: if stopped, let the remaining clients go, then the serving task must complete ------------------
-        stopped = any(r["e"] == "stop" for r in trace)
+        last_served = max([i for i, r in enumerate(trace) if r["e"] == "served"] + [0])
+        stopped = any(r["e"] == "stop" for r in trace[last_served:])
         if task is not None and stopped:
             for s in sorted(clients):
                 cl = clients[s]
